@@ -55,9 +55,11 @@ Definition own_live4 (s : sstate4) (c : N) : option N :=
   | None => None
   end.
 
-(* checks shared by OFFER and ACK of value v to client c; None = fine *)
-Definition value_checks4 (s : sstate4) (c v : N) : option N :=
-  if negb (usable4 (sc s) v) then Some 2
+(* checks shared by OFFER and ACK of value v to client c; None = fine.
+   [nx]: addresses an external allocator has named so far (allocator configuration, Dhcp4Alloc.v):
+   there the serving pool is the local pool plus the allocator's addresses; [] otherwise. *)
+Definition value_checks4 (nx : list N) (s : sstate4) (c v : N) : option N :=
+  if negb (usable4 (sc s) v || memN v nx) then Some 2
   else if other_holds4 s c v then Some 0
   else if memN v (sdown s) then Some 4
   else None.
@@ -66,17 +68,18 @@ Definition with4 (s : sstate4) (nw : N) (b : list (N * (N * N))) (dw da : list N
   if dup_binding4 nw (sn_leases sn) then inr 1
   else inl {| sc := sc s; snow := nw; sb := b; sdown := dw; sdany := da; sprev := sn |}.
 
-Definition freed4 (s : sstate4) (da : list N) (sn : snap4) (v : N) : bool :=
-  memN v (sn_avail sn) || memN v da.
+(* an allocator address (nx) is given back to the allocator, not to the local free list *)
+Definition freed4 (nx : list N) (s : sstate4) (da : list N) (sn : snap4) (v : N) : bool :=
+  memN v (sn_avail sn) || memN v da || memN v nx.
 
-Definition accept4 (s : sstate4) (o : op4) (r : out4) : sstate4 + N :=
+Definition accept4x (nx : list N) (s : sstate4) (o : op4) (r : out4) : sstate4 + N :=
   let '(rep, sn) := r in
   match o with
   | Discover m =>
       let c := m_mac m in
       match rep with
       | ROffer v =>
-          match value_checks4 s c v with
+          match value_checks4 nx s c v with
           | Some k => inr k
           | None => with4 s (snow s) (sb s) (sdown s) (sdany s) sn
           end
@@ -94,7 +97,7 @@ Definition accept4 (s : sstate4) (o : op4) (r : out4) : sstate4 + N :=
       match rep with
       | RAck v =>
           if negb (v =? want) then inr 9 else
-          match value_checks4 s c v with
+          match value_checks4 nx s c v with
           | Some k => inr k
           | None => with4 s (snow s) (aset c (v, snow s + c_lt (sc s)) (sb s)) (sdown s) (sdany s) sn
           end
@@ -111,7 +114,7 @@ Definition accept4 (s : sstate4) (o : op4) (r : out4) : sstate4 + N :=
       | RNone =>
           match own_live4 s c with
           | Some v =>
-              if freed4 s (sdany s) sn v && negb (existsb (fun p => fst p =? c) (sn_leases sn))
+              if freed4 nx s (sdany s) sn v && negb (existsb (fun p => fst p =? c) (sn_leases sn))
               then with4 s (snow s) (aremove c (sb s)) (sdown s) (sdany s) sn
               else inr 5
           | None => with4 s (snow s) (aremove c (sb s)) (sdown s) (sdany s) sn
@@ -145,13 +148,15 @@ Definition accept4 (s : sstate4) (o : op4) (r : out4) : sstate4 + N :=
       | RNone =>
           (* every binding that had run out before this tick is gone and its value is free again *)
           let dead := filter (fun p => snd (snd p) <=? snow s) (sb s) in
-          if forallb (fun p => freed4 s (sdany s) sn (fst (snd p)) &&
+          if forallb (fun p => freed4 nx s (sdany s) sn (fst (snd p)) &&
                                negb (existsb (fun q => fst q =? fst p) (sn_leases sn))) dead
           then with4 s (snow s) (filter (fun p => negb (snd (snd p) <=? snow s)) (sb s)) (sdown s) (sdany s) sn
           else inr 5
       | _ => inr 9
       end
   end.
+
+Definition accept4 : sstate4 -> op4 -> out4 -> sstate4 + N := accept4x [].
 
 (* ------------------------------------------------------------------ DHCPv6 *)
 Record sstate6 := { sc6 : cfg6; snow6 : N;
